@@ -476,6 +476,10 @@ impl Searcher {
         self.timer.verif_node_limit = limit;
     }
 
+    pub fn verif_set_poll_limit(&mut self, limit: Option<u64>) {
+        self.timer.verif_poll_limit = limit;
+    }
+
     pub fn verif_timer(&self) -> &SearchTimer {
         &self.timer
     }
